@@ -219,6 +219,35 @@ def generate(cfg="A", builddir=None, outpath=None):
         return rows
     unit_rows = section("unit-multipliers", unit_table, [])
 
+    # character-class predicates of lexer.c (file-static) and the <ctype.h> functions the library calls: exhaustive tables over
+    # all 256 byte values, one tiny program per predicate (a predicate that was renamed or removed costs only its own table)
+    CHAR_PREDS = ["isws", "isbdigit", "isqdigit", "isplusmn", "isH", "isB", "isQ", "isE", "isascii7bit", "isNonzeroDigit",
+                  "isProgramExpression", "isdigit", "isalpha", "isalnum", "isxdigit", "isupper", "islower", "isspace"]
+    CHAR_MAPS = ["toupper", "tolower"]
+    LIBC_PREDS = {"isdigit", "isalpha", "isalnum", "isxdigit", "isupper", "islower", "isspace", "toupper", "tolower"}
+    def char_table(name, mapping=False):
+        os.makedirs(builddir, exist_ok=True)
+        exe = os.path.join(builddir, "dump_chars_" + name)
+        cmd = ["gcc", "-O0", "-w", "-I" + INC, "-I" + SRC] + CFG_FLAGS[cfg] + ["-DPRED=" + name] + (["-DMAPPING"] if mapping else []) + (["-DARG_UNSIGNED"] if name in LIBC_PREDS else []) + \
+              [os.path.join(HERE, "dump_chars.c"), "-lm", "-o", exe]
+        r = subprocess.run(cmd, capture_output=True, text=True)
+        if r.returncode != 0: raise Fail("character predicate %s: dumper does not compile: %s" % (name, r.stderr[-300:]))
+        r = subprocess.run([exe], capture_output=True, text=True, timeout=30)
+        if r.returncode != 0: raise Fail("character predicate %s: dumper failed" % name)
+        bits, mp = None, None
+        for line in r.stdout.splitlines():
+            f = line.split()
+            if f and f[0] == "CHARCLASS" and len(f) == 3 and len(f[2]) == 256: bits = sum(1 << i for i, ch in enumerate(f[2]) if ch == "1")
+            if f and f[0] == "CHARMAP" and len(f) == 258: mp = [int(x) for x in f[2:]]
+        if bits is None or (mapping and mp is None): raise Fail("character predicate %s: no table in the dumper output" % name)
+        return mp if mapping else bits
+    import concurrent.futures as _cf
+    with _cf.ThreadPoolExecutor(max_workers=8) as _ex:
+        _futs = {n: _ex.submit(lambda n=n: section("charclass-" + n, lambda: char_table(n), 0)) for n in CHAR_PREDS}
+        _futm = {n: _ex.submit(lambda n=n: section("charmap-" + n, lambda: char_table(n, True), [])) for n in CHAR_MAPS}
+        charclass = {n: f.result() for n, f in _futs.items()}
+        charmap = {n: f.result() for n, f in _futm.items()}
+
     L = []
     A = L.append
     A("/- GENERATED by translate/extract.py from %s (configuration %s). Do not edit. -/" % (REPO, cfg))
@@ -255,6 +284,12 @@ def generate(cfg="A", builddir=None, outpath=None):
       ",\n  ".join("(%s, %d, %d, %d)" % (lean_str(n), u, a, b) for n, u, a, b in unit_rows))
     A("def specialNumbersDef : List (String × Int) := [%s]" % ", ".join("(%s, %d)" % (lean_str(n), t) for n, t in special))
     A("def boolDef : List (String × Int) := [%s]" % ", ".join("(%s, %d)" % (lean_str(n), t) for n, t in booldef))
+    A("\n/-- character classes: bit b of the number is set iff the C function (file-static predicate of lexer.c, or the <ctype.h>")
+    A("function as the library calls it) returns non-zero for the byte value b passed as a plain `char`; all 256 values -/")
+    for n in CHAR_PREDS:
+        A("def cc_%s : Nat := 0x%x" % (n, charclass[n]))
+    for n in CHAR_MAPS:
+        A("def cm_%s : List Nat := [%s]" % (n, ", ".join(str(x) for x in charmap[n])))
     A("\nend ScpiVerif.Gen")
     text = "\n".join(L) + "\n"
     old = read(outpath) if os.path.exists(outpath) else None
